@@ -1,0 +1,13 @@
+//go:build verif
+
+package extra25519
+
+// VerifEdBlacklist returns a copy of the unexported edBlacklist table.
+// Only built with the "verif" tag (verification harness); exports, changes nothing.
+func VerifEdBlacklist() [][]byte {
+	out := make([][]byte, len(edBlacklist))
+	for i := range edBlacklist {
+		out[i] = append([]byte(nil), edBlacklist[i][:]...)
+	}
+	return out
+}
